@@ -319,6 +319,23 @@ pub fn pair_cases(tier: Tier) -> Vec<super::h2pair::PairCase> {
             c.buffer_size = bs;
             v.push(c);
         }
+        // bodies without a declared length (re-framed as chunks towards HTTP/1.1, delimited by
+        // END_STREAM towards HTTP/2), with and without empty / padding-only DATA frames on the way
+        for (up, down) in [(0usize, 20000usize), (20000, 7), (5000, 5000), (0, 0)] {
+            for empty_frames in [false, true] {
+                if empty_frames && front == Proto::H1 && back == Proto::H1 {
+                    continue;
+                }
+                let mut c = PairCase::simple(front, back, vec![x(up, down)]);
+                c.no_length = true;
+                c.empty_frames = empty_frames;
+                c.upload_frame = 3000;
+                if front == Proto::H1 && up > 0 {
+                    c.h1_chunk = Some(1000);
+                }
+                v.push(c);
+            }
+        }
         if front == Proto::H2 {
             for pad in [1u8, 255] {
                 let mut c = PairCase::simple(front, back, vec![x(20000, 5)]);
@@ -418,7 +435,7 @@ pub fn summarize(ctx: &Ctx, results: &[ItemResult], rule: &str) -> Coverage {
             "the simulated kernel only produces behaviours a Linux kernel may produce (short counts, EAGAIN followed by a fresh edge, reordered / split readiness batches); EINTR, ENOBUFS and real TCP timing are not modelled".into(),
             "loopback TCP is used as a lossless ordered pipe; all back-pressure is injected by the interposer".into(),
         ],
-        extra: json!({"choice_points_by_kind": by_kind, "scenarios": results.len()}),
+        extra: json!({"choice_points_by_kind": by_kind, "scenarios": results.len(), "executions_discarded_and_rerun_because_the_environment_did_not_reproduce_their_prefix": results.iter().map(|r| r.stats.discarded_replays).sum::<u64>()}),
     }
 }
 
